@@ -47,6 +47,8 @@ def gen_cases(rng, tier):
   cases = []
   for i in range(n):
     route = rng.choice(ROUTES) if i % 20 else "cli"
+    if i % 10 == 4:
+      route = "api_class"      # (a fixed share of the cases: write, amend the exposed objects, write again - see below)
     groute = "api" if route.startswith("api") else "potable"
     model = spec.gen_eam_model(rng, "eam", groute, target=rng.choice(["setfl", "lammps_eam_alloy"]))
     if i % 12 == 9:
@@ -66,6 +68,8 @@ def gen_cases(rng, tier):
           d_["atomic_mass"] = 0.0
     if groute == "api":
       model["api_containers"] = rng.choice([None, None, "tuple", "generator", "map", "amend_after_write"])
+      if i % 10 == 4:
+        model["api_containers"] = "amend_after_write"     # generated deterministically: seeded change C03r4 depends on it
       if i % 3 == 1:
         model["api_density_lookup"] = "on_demand"     # functions made on lookup: a new callable object per access
       elif i % 3 == 2 and model.get("api_containers") != "amend_after_write":
